@@ -55,7 +55,7 @@ func (s *sessionManager) join(message *Message, activeChan chan<- *ActiveMessage
 			return
 		}
 		record[key] = &session{
-			header:        message.Header,
+			header:        copyHeader(message.Header),
 			joinTime:      time.Now(),
 			activeMsgChan: activeChan,
 		}
